@@ -385,11 +385,13 @@ class CsOracle:
             if dm != [want_dir]:
                 self.fail("direction", method, f"{name}: Direction {dm}, metamodel says {want_dir}")
             if kind == "request":
-                rname = name[:-7] + "Response"
+                # relational: the request class names its response class, which must name it back
                 self.evaluations += 2
                 mm = re.search(r'\[LSPRequest\("((?:\\.|[^"\\])*)", typeof\((\w+)\)', attrs)
-                if not mm or mm.group(1) != method or mm.group(2) != rname:
+                if not mm or mm.group(1) != method:
                     self.fail("request-metadata", method, f"{name}: attributes {cls.attrs}")
+                    continue
+                rname = mm.group(2)
                 rc = self.classes.get(rname)
                 if rc is None:
                     self.fail("missing-class", method, f"no response class {rname}")
@@ -397,5 +399,7 @@ class CsOracle:
                     ra = " ".join(rc.attrs)
                     mm = re.search(r"\[LSPResponse\(typeof\((\w+)\)\)\]", ra)
                     if not mm or mm.group(1) != name:
-                        self.fail("response-metadata", method, f"{rname}: attributes {rc.attrs}")
+                        self.fail("response-metadata", method, f"{rname}: attributes {rc.attrs}; the request class is {name}")
+                    if rname == name:
+                        self.fail("response-metadata", method, f"request class {name} is paired with itself")
         return self.out
